@@ -79,7 +79,34 @@ def proto(r):
         return "I " + proto(r[1])
     if t == 'case':
         return "J " + proto(r[1])
+    if t == 'nocap':            # (w/nocapture a): same language, the submatches inside are not registered
+        return proto(strip_subs(r[1]))
+    if t == 'named':            # (-> name a): a submatch with a name
+        return "U " + proto(r[1])
+    if t == 'word':             # (word a) = (: bow a eow)
+        return "S N bow S %s N eow" % proto(r[1])
     raise ValueError(r)
+
+
+def strip_subs(r):
+    t = r[0]
+    if t in ('sub', 'named'):
+        return strip_subs(r[1])
+    if t in ('seq', 'or'):
+        return (t,) + tuple(strip_subs(a) for a in r[1:])
+    if t in ('star', 'opt'):
+        return (t, r[1], strip_subs(r[2]))
+    if t in ('plus', 'nocase', 'case', 'nocap', 'word'):
+        return (t, strip_subs(r[1]))
+    if t == 'rep':
+        return r[:5] + (strip_subs(r[5]),)
+    return r
+
+
+def alias(r, names):
+    """pick one of the synonymous operator names, stable for a given node"""
+    import zlib
+    return names[zlib.crc32(repr(r).encode()) % len(names)]
 
 
 def ch_scm(cp):
@@ -120,22 +147,28 @@ def scm(r):
     if t == 'str':
         return str_scm(r[1])
     if t in ('seq', 'or'):
-        return "(%s%s)" % (":" if t == 'seq' else "or", "".join(" " + scm(a) for a in r[1:]))
+        return "(%s%s)" % (alias(r, [":", ":", "seq"]) if t == 'seq' else alias(r, ["or", "or", "|\\||"]), "".join(" " + scm(a) for a in r[1:]))
     if t == 'star':
-        return "(%s %s)" % ("*" if r[1] else "*?", scm(r[2]))
+        return "(%s %s)" % (alias(r, ["*", "*", "zero-or-more"]) if r[1] else alias(r, ["*?", "non-greedy-zero-or-more"]), body(r[2]))
     if t == 'plus':
-        return "(+ %s)" % scm(r[1])
+        return "(%s %s)" % (alias(r, ["+", "+", "one-or-more"]), body(r[1]))
     if t == 'opt':
-        return "(%s %s)" % ("?" if r[1] else "??", scm(r[2]))
+        return "(%s %s)" % (alias(r, ["?", "?", "optional"]) if r[1] else alias(r, ["??", "non-greedy-optional"]), body(r[2]))
     if t == 'rep':
         _, form, g, m, n, a = r
         if form == '=':
-            return "(= %d %s)" % (m, scm(a))
+            return "(%s %d %s)" % (alias(r, ["=", "exactly"]), m, body(a))
         if form == '>=':
-            return "(>= %d %s)" % (m, scm(a))
-        return "(%s %d %d %s)" % ("**" if g else "**?", m, n, scm(a))
+            return "(%s %d %s)" % (alias(r, [">=", "at-least"]), m, body(a))
+        return "(%s %d %d %s)" % (alias(r, ["**", "repeated"]) if g else alias(r, ["**?", "non-greedy-repeated"]), m, n, body(a))
     if t == 'sub':
-        return "($ %s)" % scm(r[1])
+        return "(%s %s)" % (alias(r, ["$", "$", "submatch"]), body(r[1]))
+    if t == 'nocap':
+        return "(w/nocapture %s)" % body(r[1])
+    if t == 'named':
+        return "(%s foo %s)" % (alias(r, ["->", "=>", "submatch-named"]), body(r[1]))
+    if t == 'word':
+        return "(word %s)" % body(r[1])
     if t == 'anc':
         return r[1]
     if t == 'nocase':
@@ -145,6 +178,14 @@ def scm(r):
     raise ValueError(r)
 
 
+def body(a):
+    """operators take an implicit sequence: (* a b) = (* (: a b)); use that form for some sequences"""
+    import zlib
+    if a[0] == 'seq' and len(a) > 2 and zlib.crc32(repr(a).encode()) % 2 == 0:
+        return " ".join(scm(x) for x in a[1:])
+    return scm(a)
+
+
 def walk(r):
     yield r
     if r[0] in ('seq', 'or'):
@@ -152,7 +193,7 @@ def walk(r):
             yield from walk(a)
     elif r[0] in ('star', 'opt'):
         yield from walk(r[2])
-    elif r[0] in ('plus', 'sub', 'nocase', 'case'):
+    elif r[0] in ('plus', 'sub', 'nocase', 'case', 'nocap', 'named', 'word'):
         yield from walk(r[1])
     elif r[0] == 'rep':
         yield from walk(r[5])
@@ -163,7 +204,7 @@ def depth(r):
         return 1 + max([depth(a) for a in r[1:]] or [0])
     if r[0] in ('star', 'opt'):
         return 1 + depth(r[2])
-    if r[0] in ('plus', 'sub', 'nocase', 'case'):
+    if r[0] in ('plus', 'sub', 'nocase', 'case', 'nocap', 'named', 'word'):
         return 1 + depth(r[1])
     if r[0] == 'rep':
         return 1 + depth(r[5])
@@ -181,9 +222,9 @@ def klass(r):
         return "bounded-repeat"
     if any(n[0] in ('nocase', 'case') for n in nodes):
         return "case-folding"
-    if any(n[0] == 'anc' for n in nodes):
+    if any(n[0] in ('anc', 'word') for n in nodes):
         return "anchor"
-    if any(n[0] == 'sub' for n in nodes):
+    if any(n[0] in ('sub', 'named', 'nocap') for n in nodes):
         return "submatch"
     return "core"
 
@@ -323,9 +364,15 @@ def rand_sre(rng, alpha, d):
         if form == '=':
             return ('rep', '=', True, m, m, sub())
         return ('rep', '>=', True, m, None, sub())
-    if k < 0.93:
+    if k < 0.90:
         return ('sub', sub())
-    if k < 0.98:
+    if k < 0.92:
+        return ('named', sub())
+    if k < 0.94:
+        return ('nocap', sub())
+    if k < 0.955:
+        return ('word', sub())
+    if k < 0.985:
         return ('nocase', sub())
     return ('case', sub())
 
@@ -354,7 +401,7 @@ def tame(r, ci=False):
         return (t,) + tuple(tame(a, ci) for a in r[1:])
     if t in ('star', 'opt'):
         return (t, r[1], tame(r[2], ci))
-    if t in ('plus', 'sub'):
+    if t in ('plus', 'sub', 'nocap', 'named', 'word'):
         return (t, tame(r[1], ci))
     if t == 'nocase':
         return (t, tame(r[1], True))
@@ -519,6 +566,96 @@ def compare(ctx, exe, d, cases, label, sample=True):
                             impl_spans=chk_meta[-1][3], check_spans=co[-1]))
 
 
+def run_fold_impl(d, cases, jobs=4, timeout=900):
+    """cases: list of (sre, strs) -> raw 'G ...' driver lines"""
+    res = [None] * len(cases)
+    os.makedirs(B.SCRATCH, exist_ok=True)
+
+    def run_range(lo, hi):
+        with tempfile.NamedTemporaryFile("w", suffix=".c20", dir=B.SCRATCH, delete=False) as fh:
+            for i in range(lo, hi):
+                r, strs = cases[i]
+                fh.write("(%d fold %s%s)\n" % (i, scm(r), "".join(" " + str_scm(s) for s in strs)))
+            path = fh.name
+        try:
+            try:
+                out = B.run_chibi(d, [DRIVER, path], timeout=timeout).stdout
+            except subprocess.TimeoutExpired as e:
+                out = e.stdout.decode() if isinstance(e.stdout, bytes) else (e.stdout or "")
+        finally:
+            os.unlink(path)
+        for line in out.split("\n"):
+            sp = line.find(" ")
+            if sp > 0 and line[:sp].isdigit() and lo <= int(line[:sp]) < hi:
+                res[int(line[:sp])] = line[sp + 1:]
+
+    n = len(cases)
+    step = max(1, min(400, (n + jobs - 1) // jobs))
+    with concurrent.futures.ThreadPoolExecutor(max_workers=jobs) as ex:
+        list(ex.map(lambda lo: run_range(lo, min(n, lo + step)), range(0, n, step)))
+    return res
+
+
+def strs_field(ls):
+    return "_" if not ls else ",".join("e" if not x else ".".join("%x" % c for c in x) for x in ls)
+
+
+def fold_replay(r, s, fn):
+    call = {"regexp-fold": "(regexp-fold (quote %s) (lambda (i m s a) (cons (cons (regexp-match-submatch-start m 0) (regexp-match-submatch-end m 0)) a)) (quote ()) %s (lambda (i m s a) (reverse a)))",
+            "regexp-extract": "(regexp-extract (quote %s) %s)", "regexp-split": "(regexp-split (quote %s) %s)",
+            "regexp-partition": "(regexp-partition (quote %s) %s)", "regexp-replace": "(regexp-replace (quote %s) %s \"-\")"}[fn] % (scm(r), str_scm(s))
+    return ("printf '%%s' '(import (scheme base) (scheme write) (chibi regexp)) (write %s) (newline)' | "
+            "LD_LIBRARY_PATH=$D CHIBI_MODULE_PATH=$D/lib $D/chibi-scheme /dev/stdin   # D = scratch build of the tree under test" % call)
+
+
+def fold_stage(ctx, exe, d, cases, label):
+    """regexp-fold / regexp-extract / regexp-split / regexp-partition / regexp-replace against expectations derived from the
+    proved fold_spans (successive leftmost-longest matches, each in its true context inside the subject), for greedy SREs"""
+    import time
+    t0 = time.time()
+    cases = [(tame(r), strs) for r, strs in cases]
+    reqs = ["G %s%s" % (proto(r), "".join(" | " + sfield(s) for s in strs)) for r, strs in cases]
+    mo = ctx.run_model(exe, reqs)
+    keep = [(c, m.split(" ")) for c, m in zip(cases, mo) if not m.startswith("ERR") and m[0] == "0"]
+    io = run_fold_impl(d, [c for c, _ in keep])
+    for ((r, strs), mf), i in zip(keep, io):
+        cls = klass(r)
+        if i is None or i.startswith("ERR"):
+            ctx.violation("regexp-fold:error:" + cls, input=dict(sre=scm(r)), observed=i, expected="results", replay=fold_replay(r, strs[0], "regexp-fold"))
+            continue
+        ires = i.split(" ")[1:]
+        for s, ms, ir in zip(strs, mf[1:], ires):
+            ctx.count(1, key=("fold", r, s), nontrivial=len(s) >= 1)
+            ctx.cov["traces_validated_against_impl"] += 1
+            if ms == "!":
+                ctx.broken("model:fold_spans", "out of fuel on %s %s (contradicts fold_spans_sound)" % (proto(r), sfield(s)))
+                continue
+            spans = [] if ms == "_" else [tuple(int(x) for x in t.split("-")) for t in ms.split(",")]
+            ne = [(a, b) for a, b in spans if b > a]
+            exp = {}
+            exp["regexp-fold"] = ms
+            exp["regexp-extract"] = strs_field([s[a:b] for a, b in ne])
+            pieces, part, prev = [], [], 0
+            for a, b in ne:
+                pieces.append(s[prev:a]); part.extend([s[prev:a], s[a:b]]); prev = b
+            pieces.append(s[prev:])
+            if prev < len(s) or not ne:
+                part.append(s[prev:])
+            exp["regexp-split"] = strs_field(pieces)
+            exp["regexp-partition"] = strs_field(part)
+            if s:
+                exp["regexp-replace"] = strs_field([s[:spans[0][0]] + (0x2d,) + s[spans[0][1]:]] if spans else [s])
+            got = dict(zip(["regexp-fold", "regexp-extract", "regexp-split", "regexp-partition", "regexp-replace"], [x[1:] for x in ir.split(";")]))
+            for fn, want in exp.items():
+                if got.get(fn) != want:
+                    ctx.violation("%s:differs-from-successive-leftmost-longest:%s" % (fn, cls), input=dict(sre=scm(r), string=str_scm(s), sre_model=proto(r)),
+                                  observed=got.get(fn), expected=want, model_fold_spans=ms, replay=fold_replay(r, s, fn))
+    if keep:
+        (r, strs), mf = keep[-1]
+        ctx.sample(dict(kind=label, sre=scm(r), string=str_scm(strs[-1]), model_fold_spans=mf[-1], impl=io[-1].split(" ")[-1] if io[-1] else None))
+    ctx.note("stage %s: %d SREs (%d without non-greedy operators), %.1fs" % (label, len(cases), len(keep), time.time() - t0))
+
+
 def char_stage(ctx, exe, d, cps):
     """character-level functions on every code point the run uses: the model's [fold] must induce exactly the
     pattern-char -> subject-char relation that char-set-ci (upcase/downcase closure) induces, and [is_word] must be
@@ -557,11 +694,11 @@ def char_stage(ctx, exe, d, cps):
                                % (dch, c, c in ciset, mfold[c] == mfold[dch]))
 
 
-def load_corpus():
+def load_corpus(fold=False):
     out = []
     if os.path.isdir(CORPUS):
         for f in sorted(os.listdir(CORPUS)):
-            if f.endswith(".jsonl"):
+            if f.endswith(".jsonl") and f.startswith("fold") == fold:
                 for line in open(os.path.join(CORPUS, f)):
                     line = line.strip()
                     if line and not line.startswith("#"):
@@ -581,7 +718,8 @@ def run(ctx):
                        "a seeded slice of depth-2 SREs over the full operator set; random SREs to "
                        "depth 5 x strings to length 12 over 3-4 letters (+ newline, upper case); Unicode samples (2/3/4-byte characters, case pairs). "
                        "Each pair: regexp-matches and regexp-search vs the verified matcher (boolean, span 0, leftmost-longest for greedy SREs) and "
-                       "all reported spans through the verified validator check_spans. Distinct by (SRE, string); non-trivial when the SRE has an "
+                       "all reported spans through the verified validator check_spans; for greedy SREs also regexp-fold, "
+                       "regexp-extract, regexp-split, regexp-partition, regexp-replace vs the proved fold_spans. Distinct by (SRE, string); non-trivial when the SRE has an "
                        "operator and the string is non-empty")
     ctx.coq_obligations("Properties_C20")
     d = ctx.build("default")
@@ -646,6 +784,18 @@ def run(ctx):
             r = ('nocase', r)
         cases.append((r, rand_strings(rng, alpha + [alpha[0]], 8 if T else 6, 8)))
     go(cases, "unicode")
+    # -------------------------------------------------------------- regexp-fold family
+    greedy = [u for k, u in enumerate(UNARY_FULL) if k not in (1, 4, 8)]
+    f1 = level_sets(ATOMS_FULL, greedy, BINARY, 1)
+    fcases = load_corpus(fold=True) + [(r, rng.sample(strs3, 12 if T else 5)) for r in f1[0] + f1[1]]
+    for _ in range(4000 if T else 250):
+        alpha = rng.choice([[A_, B_, C_], [A_, B_, NL], [A_, B_, UA, NL], [A_, 0x2c, B_, 0x20]])
+        fcases.append((rand_sre(rng, alpha, rng.choice([2, 3, 4])), rand_strings(rng, alpha, 6, 10)))
+    for r, strs in fcases:
+        used.update(cps_of(r))
+        for s in strs:
+            used.update(s)
+    fold_stage(ctx, exe, d, fcases, "fold-family")
     char_stage(ctx, exe, d, used)
     ctx.assume("SRE subset: literals, strings, char sets (/ or and ~ - any w/nocase w/case), seq, or, * + ? *? ?? ** **? = >=, $, bos eos bol eol bow eow nwb, "
                "w/nocase w/case; named submatches, submatch lists, look-around, word/grapheme classes, named char classes, w/ascii, w/nocapture, "
